@@ -20,26 +20,36 @@
     while this package was built, so the statement below has no [~ Known] hypothesis any more; the
     predicates stay as classifiers (a repaired mechanism that comes back is a violation).
 
-    NOT proved here: [C01_bash_meaning_statement], the statement about the script itself.  It needs
-    the interpreter of the bash skeleton (Model/BashSem.v, another work package); it is stated
-    below over an abstract interpreter so that it can be instantiated after the merge. *)
+    [C01_bash_meaning_literal] and [C01_bash_meaning_toplevel] (below) prove the statement about the
+    script itself -- [BashSem.run_from Repaired] on [Tables.all_tables Bash (Driver.compile_valid v)]
+    against [Meaning.complete] -- for all trees without within-word expressions.  The general
+    statement [C01_bash_meaning_statement] (within-word items included) is NOT proved. *)
 From CG Require Import Model.Dfa Model.Tables Model.Glob Model.BashSem Model.Driver.
 From CG Require Import Base.Prelude Model.Ast Model.Check Spec.Rx Spec.Meaning Spec.KnownC01 Spec.Domain
      Proofs.RxFacts Proofs.MeaningFacts Proofs.MeaningLevels Proofs.DomainFacts.
 From CG Require Import Proofs.TreeFacts Proofs.GlobFacts Proofs.StripFacts Proofs.BashMeaningLit Proofs.LangBridge Proofs.C01Layers.
 From CG Require Import Spec.Invocations.
 
-(** The full statement, over an abstract interpreter [script_run] of the script emitted for the
-    validated grammar [e] ([None] = exit status 1, [Some reply] = exit status 0 with COMPREPLY). *)
-Definition C01_bash_meaning_statement
-           (script_run : expr -> env -> list string -> string -> option (list string)) : Prop :=
-  forall e en ws p,
-    C01_domain e = true -> C01_env_ok e en = true ->
-    ambiguous_run en (start e) ws = false ->
-    match complete e en ws p, script_run e en ws p with
-    | None, None => True
-    | Some (req, al), Some reply => incl req reply /\ incl reply al
-    | _, _ => False
+(** The full statement: the interpreter of the script of /repo HEAD on the tables of the model
+    pipeline against the specification, for every validated tree in the decided domain -- within-word
+    expressions included.  Proved below for trees without within-word expressions
+    ([C01_bash_meaning_literal], [C01_bash_meaning_toplevel]: there required = reply = allowed);
+    the general case (layer (c): within-word items) is only stated. *)
+Definition C01_bash_meaning_statement : Prop :=
+  forall pick fuel v c om os nd a (benv : BashSem.env) (en : Meaning.env) ws p,
+    Proofs.TreeFacts.alts_nonempty (v_expr v) = true ->
+    compile_valid pick fuel v = Ok c ->
+    all_tables Bash c om os = Ok (nd, a) -> valid_orders c om os = true ->
+    C01_domain (v_expr v) = true -> C01_env_ok (v_expr v) en = true ->
+    BashSem.e_ignore_case benv = false -> BashSem.e_wordbreaks benv = Meaning.e_wordbreaks en ->
+    (forall cm cid, Tables.index_of cm (a_commands a) = Some cid ->
+                    Spec.Invocations.spec_candidates (cmd_output benv cid) = candidates en cm) ->
+    ambiguous_run en (start (v_expr v)) ws = false ->
+    match complete (v_expr v) en ws p with
+    | None => exists log, run_from Repaired (d_start (c_main c)) a benv ws p = Ok (mkresult 1 [] log)
+    | Some (req, al) =>
+        exists reply log, run_from Repaired (d_start (c_main c)) a benv ws p = Ok (mkresult 0 reply log)
+                          /\ incl req reply /\ incl reply al
     end.
 
 Theorem C01_linear_form_correct :
